@@ -102,7 +102,11 @@ def run(sh):
     items = [it for it in corpus.items() if not it["ignored"] and "random(" not in it["input"] and "unique-id" not in it["input"]]
     mine = [it for i, it in enumerate(items) if i % sh.nshards == sh.shard]
     # (c) corpus under newline / BOM / charset rewrites
+    rng.shuffle(mine)
     for base in range(0, len(mine), 12):
+        if sh.past(0.4):
+            sh.count("corpus_items_skipped_time", len(mine) - base)
+            break
         chunk = mine[base:base + 12]
         specs, meta = [], []
         for it in chunk:
@@ -133,6 +137,8 @@ def run(sh):
     excl = c05.exclusions()
     excl_inputs = {it["input"] for it in corpus.items() if (it["file"] + "::" + it["name"]) in excl}
     for base in range(0, len(mine), 24):
+        if sh.past(0.55):
+            break
         chunk = [it for it in mine[base:base + 24] if it["kind"] == "test" and it["expected"].strip()
                  and it["input"] not in excl_inputs and "@import" not in it["expected"]]
         specs = []
